@@ -45,8 +45,9 @@ type c13oOp struct {
 }
 
 type c13oCase struct {
-	W   []int    `json:"w"` // weight per node (2..4 nodes), sum > 0
-	P   int      `json:"p"` // key prefix of the case
+	W   []int    `json:"w"`             // weight per node (1..4 nodes; a few negative; at most one 1<<62 whose product with the replicas overflows), at least one > 0
+	Dup []int    `json:"dup,omitempty"` // [i, w]: a last entry repeats the host of node i with weight w (same node: the later weight counts)
+	P   int      `json:"p"`             // key prefix of the case
 	Ops []c13oOp `json:"ops"`
 }
 
@@ -162,18 +163,49 @@ func c13oInterp(t *testing.T, c c13oCase) (v kit.Verdict) {
 	var conf ClusterConfig
 	ref := hash.NewConsistentHash()
 	byAddr := map[string]int{}
-	positive := 0
+	eff := append([]int{}, c.W...)
+	overflow := false
 	for i := 0; i < n; i++ {
 		c13oSrv[i].FlushAll()
 		addr := c13oSrv[i].Addr()
 		byAddr[addr] = i
 		conf = append(conf, NodeConfig{Config: redis.Config{Host: addr, Type: redis.NodeType}, Weight: c.W[i]})
 		ref.AddWithWeight(addr, c.W[i])
-		if c.W[i] > 0 {
+		overflow = overflow || c.W[i] > 1<<40
+	}
+	if len(c.Dup) == 2 {
+		addr := c13oSrv[c.Dup[0]].Addr()
+		conf = append(conf, NodeConfig{Config: redis.Config{Host: addr, Type: redis.NodeType}, Weight: c.Dup[1]})
+		ref.AddWithWeight(addr, c.Dup[1])
+		eff[c.Dup[0]] = c.Dup[1]
+		classes["duplicate-host"] = true
+	}
+	positive, negative := 0, 0
+	for _, w := range eff {
+		if w > 0 {
 			positive++
+		} else if w < 0 {
+			negative++
+			classes["negative-weight"] = true
 		}
 	}
+	if positive == 0 && negative > 0 { // only negative weights count: whether such a node receives keys is not determined
+		overflow = true
+	}
 	classes["nodes:"+strconv.Itoa(n)] = true
+	// no node of positive weight is left (the duplicate entry re-added the only one with weight 0):
+	// no key may reach any server; what the operations return is not judged
+	_, refOK := ref.Get("any key")
+	noNode := positive == 0 && !overflow
+	if noNode && refOK {
+		return v.Failf("no node of positive weight is configured (effective weights %v) but the reference ConsistentHash names a node", eff)
+	}
+	if noNode {
+		classes["no-positive-node"] = true
+	}
+	if overflow { // weight * replicas overflows, or only negative weights are left: not determined, run for panics only
+		classes["undetermined-weights:panics-only"] = true
+	}
 	cl := New(conf, syncx.NewSingleFlight(), c13oStat, c13oNotFound)
 	want := func(key string) int {
 		x, ok := ref.Get(key)
@@ -286,6 +318,9 @@ func c13oInterp(t *testing.T, c c13oCase) (v kit.Verdict) {
 		after := counts()
 		kinds[o.K] = true
 		classes["op:"+o.K+map[bool]string{true: "Ctx", false: ""}[o.Ctx]] = true
+		if overflow {
+			continue
+		}
 
 		// 1. the servers that processed commands are exactly the nodes the reference names
 		wantNodes := map[int]bool{}
@@ -306,6 +341,9 @@ func c13oInterp(t *testing.T, c c13oCase) (v kit.Verdict) {
 		}
 
 		// 2. model of the cluster's content and result of the operation
+		if noNode {
+			o.K = "" // results without any node are not judged
+		}
 		switch o.K {
 		case "set", "setex":
 			if err != nil {
@@ -402,14 +440,14 @@ func c13oDelta(a, b []int) []int {
 }
 
 func c13oGen(rt *rapid.T) c13oCase {
-	n := rapid.SampledFrom([]int{2, 3, 3, 4, 4}).Draw(rt, "nodes")
+	n := rapid.SampledFrom([]int{2, 3, 3, 4, 4, 2, 3, 4, 1}).Draw(rt, "nodes") // 1: New returns the node itself
 	c := c13oCase{P: rapid.IntRange(0, 1<<20).Draw(rt, "prefix")}
 	pos := 0
 	for i := 0; i < n; i++ {
 		w := 100
 		switch rapid.IntRange(0, 5).Draw(rt, "wsel") {
 		case 0:
-			w = 0
+			w = rapid.SampledFrom([]int{0, 0, 0, 0, 0, -1, -30, -100}).Draw(rt, "w0")
 		case 1, 2:
 			w = rapid.IntRange(1, 100).Draw(rt, "w")
 		}
@@ -420,6 +458,27 @@ func c13oGen(rt *rapid.T) c13oCase {
 	}
 	if pos == 0 {
 		c.W[0] = 100
+	}
+	if n > 1 {
+		switch rapid.Uint64().Draw(rt, "special") % 24 /* rapid favours small values: the special configurations sit on the large residues */ {
+		case 18, 19, 20, 21: // a duplicate entry for one host
+			c.Dup = []int{rapid.IntRange(0, n-1).Draw(rt, "dupof"), rapid.SampledFrom([]int{0, 0, 1, 50, 100, -1}).Draw(rt, "dupw")}
+		case 22: // the only positive node is re-added with weight 0 by a duplicate entry: no node is left
+			for i := range c.W {
+				if i > 0 && c.W[i] > 0 {
+					c.W[i] = 0
+				}
+			}
+			c.W[0] = 100
+			c.Dup = []int{0, 0}
+		case 23: // one weight whose product with the replicas overflows, nothing else positive (the sum must not overflow)
+			for i := range c.W {
+				if c.W[i] > 0 {
+					c.W[i] = 0
+				}
+			}
+			c.W[0] = 1 << 62
+		}
 	}
 	nops := rapid.IntRange(4, 16).Draw(rt, "nops")
 	for i := 0; i < nops; i++ {
